@@ -362,6 +362,16 @@ var sm smDecoder
 
 // decode decodes all known nonza in the stream management namespace.
 func (s smDecoder) decode(p *xml.Decoder, se xml.StartElement) (Packet, error) {
+	// The attributes of XEP-0198 are unqualified. encoding/xml matches an attribute tag
+	// against the local name in any namespace: keep an attribute of another namespace that
+	// happens to be called h, max, id or previd (or a prefix declaration) away from it.
+	attrs := make([]xml.Attr, 0, len(se.Attr))
+	for _, a := range se.Attr {
+		if a.Name.Space == "" {
+			attrs = append(attrs, a)
+		}
+	}
+	se.Attr = attrs
 	switch se.Name.Local {
 	case "enabled":
 		return s.decodeEnabled(p, se)
